@@ -14,40 +14,45 @@ def alloc_fns(prog):
 
 @rule('P1', props=['C13', 'C02', 'C06', 'C01'], floor=2)
 def p1_pop_must_use(prog):
-    """Every slot index popped from the allocator's free list is read on every path from the pop to
-    the function's return or to the next pop (a popped index that is dropped is a lost slot)."""
+    """Every slot index popped from the allocator's free list is used on every CFG path from the pop to the
+    function's return or to the next pop: it selects a slot that is activated, or it is pushed back (a popped
+    index that is dropped is a lost slot — neither live nor free)."""
     r = Result()
+    free_i = adt_field_index(prog, 'entity::allocator::Allocator', 'free')
     for f in prog.fns.values():
-        body = f.body
-        for b, t in body.calls(lambda c: c['path'] in POP):
-            recv = receiver_name(prog, body, t['args'][0])
-            if recv is None or not recv.endswith('.free'):
+        if f.kind == 'Closure':
+            continue
+        if not any(True for g in [f] + f.closures() for _ in g.body.calls(lambda c: c['path'] in POP)):
+            continue
+        E = pathsem.analyse(prog, f)
+        pops_seen = 0
+        rep = set()
+        if E.truncated:
+            r.viol('P1', '%s/not-analysable' % f.path, f.loc(), 'path enumeration cut off')
+            continue
+        for p in E.paths:
+            if p.ended not in ('return', 'cutoff'):
                 continue
-            r.inst('%s: pop on %s at bb%d' % (f.path, recv, b))
-            d = op_local({'copy': t['dest']})
-            # payload extractions: x = (d as Some).0
-            payloads = []
-            for bb, i, s in body.stmts():
-                if s['k'] != 'assign' or s['rv']['k'] != 'use':
-                    continue
-                p = op_place(s['rv']['op'])
-                if p and p['l'] == d and len(p['p']) == 2 and isinstance(p['p'][0], dict) and p['p'][0].get('vname') == 'Some':
-                    payloads.append((bb, i, s['place']['l']))
-            if not payloads:
-                r.viol('P1', '%s/never-extracted' % f.path, f.loc(t['ln']),
-                       'index popped from %s is never extracted from the Option: the slot is lost' % recv)
-                continue
-            for bb, i, x in payloads:
-                if block_reads(body, bb, x, after_stmt=i):
-                    continue
-                users = [u for u in range(body.n) if block_reads(body, u, x)]
-                esc = body.reachable_after(bb, avoid=users)
-                bad = [e for e in esc if body.term(e)['k'] == 'return' or e == b]
-                if bad:
-                    path = path_between(body, bb, bad, avoid=users)
-                    r.viol('P1', '%s/unused-on-path' % f.path, f.loc(t['ln']),
-                           'index popped from %s (local _%d) is not read on a path from its binding (bb%d) to %s: the slot is neither activated nor returned to the free list'
-                           % (recv, x, bb, 'the next pop' if b in bad else 'return'), {'path': path})
+            pops = [e for e in p.calls(lambda e: e['path'] in POP) if pathsem.is_field_of(e['args'][0], 'entity::allocator::Allocator', free_i)]
+            pops_seen += len(pops)
+            for n, e in enumerate(pops):
+                if p.lookup(('discr', e['ret'])) != 1:
+                    continue       # nothing was popped (None) or the path ends before looking
+                payload = ('f', ('down', e['ret'], 'Some', 1), 0, 'core::option::Option')
+                until = pops[n + 1]['i'] if n + 1 < len(pops) else len(p.events)
+                used = False
+                for u in p.events[e['i'] + 1:until]:
+                    if u['k'] == 'call' and (any(pathsem.mentions(x, lambda t: t == payload) for x in list(u['args']) + list(u.get('vals', ())))):
+                        if u['name'] in ('activate_unchecked', 'activate', 'push_back', 'push_front'):
+                            used = True       # the slot at that index is activated, or the index goes back to the list
+                    if u['k'] == 'store' and pathsem.mentions(u['value'], lambda t: t == payload):
+                        used = True
+                if not used and p.ended == 'return' and 'u' not in rep:
+                    rep.add('u')
+                    r.viol('P1', '%s/unused-on-path' % f.path, f.loc(e['ln']),
+                           'index popped from the free list is not used on a path from the pop to %s: the slot is neither activated nor returned to the free list' % ('the next pop' if n + 1 < len(pops) else 'return'))
+        if pops_seen:
+            r.inst('%s: pop on self.free on %d path event(s)' % (f.path, pops_seen))
     return r
 
 
